@@ -38,7 +38,7 @@ ASSUMPTIONS = [
 ]
 MANIFEST = {
     "category": "exploration",
-    "text": "Bounded exhaustive enumeration of structural module models (statement sequences x nesting in 22 block kinds (if/else, try clauses, loops, with, TYPE_CHECKING guards nested, aliased and inside try, documented assignments in else/except/finally clauses) x 2 colliding names x class bodies) rendered to source with spans known by construction; the real visitor's tree is compared with a reference interpreter over the model (members, kinds, parents, spans, source slices, docstrings, labels, runtime flag, imports, exports, visibility table) and its extension events with the announce-once / parent-first / members-last protocol; unsupported statements are in the alphabet for totality; a reload family loads the same file again after an edit (same loader / shared lines collection). A spelled family writes the same definitions in valid but unusual ways (PEP 695 headers, multi-line and call decorators, semicolons, line continuations, one-line compound statements, elif / except* / match arms, non-ASCII identifiers, tabs) alone, next to ordinary statements, in classes and in block arms; a separators family loads files containing form feeds and the other characters str.splitlines splits on, and CRLF / CR line ends; methods other than __init__ that assign to self are class-level statements too.",
+    "text": "Bounded exhaustive enumeration of structural module models (statement sequences x nesting in 22 block kinds (if/else, try clauses, loops, with, TYPE_CHECKING guards nested, aliased and inside try, documented assignments in else/except/finally clauses) x 2 colliding names x class bodies) rendered to source with spans known by construction; the real visitor's tree is compared with a reference interpreter over the model (members, kinds, parents, spans, source slices, docstrings, labels, runtime flag, imports, exports, visibility table) and its extension events with the announce-once / parent-first / members-last protocol; unsupported statements are in the alphabet for totality; a reload family loads the same file again after an edit (same loader / shared lines collection). A spelled family writes the same definitions in valid but unusual ways (PEP 695 headers, multi-line and call decorators, semicolons, line continuations, one-line compound statements, elif / except* / match arms, non-ASCII identifiers, tabs) alone, next to ordinary statements, in classes and in block arms; a separators family loads files containing form feeds and the other characters str.splitlines splits on, and CRLF / CR line ends; methods other than __init__ that assign to self are class-level statements too. The visibility table includes __all__ spliced from a local list (the list variable is not exported).",
     "note": "The reference interpreter and renderer are hand-written (~250 lines); complete for the alphabet and size bound; general Python syntax beyond the alphabet is not covered.",
     "technique": "model checking by exhaustive small-scope enumeration of structural module models on the real visitor with a reference interpreter and an event monitor",
 }
